@@ -10,3 +10,9 @@ import CkptVerif.Model.Online
 import CkptVerif.Model.DP
 import CkptVerif.Model.Mixed
 import CkptVerif.Model.Revolve
+import CkptVerif.Proofs.NAdv
+import CkptVerif.Proofs.DP
+import CkptVerif.Proofs.MixedDP
+import CkptVerif.Proofs.ExecLemmas
+import CkptVerif.Proofs.SegOk
+import CkptVerif.Proofs.MultistageOk
